@@ -17,7 +17,21 @@ Z3OLD = "/usr/bin/z3"
 CVC5 = "/usr/bin/cvc5"
 
 
+_HQ_CACHE: dict[int, bool] = {}
+_HQ_KEEP = []
+
+
 def _has_quant(t):
+    k = t.get_id()
+    r = _HQ_CACHE.get(k)
+    if r is None:
+        r = _has_quant_uncached(t)
+        _HQ_CACHE[k] = r
+        _HQ_KEEP.append(t)
+    return r
+
+
+def _has_quant_uncached(t):
     seen = set()
     stack = [t]
     while stack:
@@ -29,6 +43,26 @@ def _has_quant(t):
             return True
         stack.extend(x.children())
     return False
+
+
+def _case_split(pc, max_cases=48):
+    """expand top-level disjunctions among the hypotheses (they come from joins of paths) into separate cases"""
+    cases = [list(pc)]
+    # split on the disjunctions from last to first while the number of cases stays small
+    idxs = [k for k in range(len(pc) - 1, -1, -1) if z3.is_or(pc[k]) and 2 <= pc[k].num_args() <= 8]
+    for k in idxs[:3]:
+        n = pc[k].num_args()
+        if len(cases) * n > max_cases:
+            break
+        new = []
+        for c in cases:
+            for j in range(n):
+                d = pc[k].arg(j)
+                c2 = list(c)
+                c2[k] = d
+                new.append(c2)
+        cases = new
+    return cases
 
 
 def to_smt2(pc, goal) -> str:
@@ -123,6 +157,10 @@ def discharge(obligations, probes=None, timeout_ms=10000, jobs=None):
 
         def task(item):
             i, full, qf = item
+            if obligations[i].expect_refuted:
+                # vacuity canary: only a quick satisfiability probe (unknown is acceptable, unsat is a checker error)
+                r, out, dt = _run([Z3NEW, "-T:5"], full, 5, tmpdir)
+                return i, ({"sat": "sat", "unsat": "unsat"}.get(r, "unknown"), "z3", dt, None)
             return i, solve_text(full, qf, timeout_s, tmpdir, want_model=True)
 
         with cf.ThreadPoolExecutor(max_workers=jobs) as pool:
@@ -132,6 +170,32 @@ def discharge(obligations, probes=None, timeout_ms=10000, jobs=None):
                 ob.verdict = {"unsat": "discharged", "sat": "refuted"}.get(verdict, "undecided")
         for i, full, qf in work:
             obligations[i].smt2_size = len(full)
+        # second pass: case split on joined paths (top-level disjunctions among the hypotheses) for what is still open
+        open_ = [i for i, _, _ in work if obligations[i].verdict == "undecided" and not obligations[i].expect_refuted]
+        for i in open_:
+            ob = obligations[i]
+            cases = _case_split(ob.pc, max_cases=48)
+            if not cases or len(cases) < 2:
+                continue
+            texts = [(k, to_smt2(pc_k, ob.goal), None) for k, pc_k in enumerate(cases)]
+            t0 = time.time()
+
+            def task2(item):
+                k, full, qf = item
+                return k, solve_text(full, None, timeout_s, tmpdir, want_model=True)
+
+            verdicts = {}
+            with cf.ThreadPoolExecutor(max_workers=jobs) as pool:
+                for k, (verdict, backend, dt, raw) in pool.map(task2, texts):
+                    verdicts[k] = (verdict, backend, raw)
+            ob.time += time.time() - t0
+            if all(v[0] == "unsat" for v in verdicts.values()):
+                ob.verdict, ob.backend, ob.raw = "discharged", f"z3/cases({len(cases)})", None
+            elif any(v[0] == "sat" for v in verdicts.values()):
+                k = next(k for k, v in verdicts.items() if v[0] == "sat")
+                ob.verdict, ob.backend, ob.raw = "refuted", f"{verdicts[k][1]}/case{k}", verdicts[k][2]
+            else:
+                ob.raw = (ob.raw or "") + f"; case split into {len(cases)}: " + ",".join(v[0] for v in verdicts.values())
     finally:
         shutil.rmtree(tmpdir, ignore_errors=True)
 
